@@ -746,6 +746,12 @@ def apply(func, args, kwargs=None):
             except Undefined:
                 pass
     if func == "getitem" and len(args) == 2 and x is not None and not extra and isinstance(args[1], Rat):
+        # (a, b, c)[k] with a literal k: the entry of a literal tuple / list
+        pl0 = x.as_atom("pylist")
+        kv = args[1].const_value()
+        if pl0 is not None and len(pl0.args) == 1 and isinstance(pl0.args[0], tuple) and kv is not None and kv == int(kv) and 0 <= int(kv) < len(pl0.args[0]) \
+                and isinstance(pl0.args[0][int(kv)], Rat):
+            return pl0.args[0][int(kv)]
         # {literal keys: values}[literal key]: the entry
         pd = x.as_atom("pydict")
         if pd is not None and pd.args and isinstance(pd.args[0], tuple):
